@@ -15,13 +15,33 @@ inductive Kind where
   | stringIn | stringOut | stringInout
   | charResult | stringResult | charScalarResult
   | native
+  | nativeOutAlloc                       -- `T *a +intent(out)+deref(allocatable)+dimension(..)`
+  | vectorIn | vectorOut | vectorOutAlloc | vectorInout | vectorInoutAlloc | vectorResult | vectorResultAlloc
+  | ptrPtrOut                            -- `T **a +intent(out)+dimension(..)` (Fortran pointer)
+  | resultPointer | resultAlloc          -- `T *f() +dimension(..)` with deref(pointer) / deref(allocatable)
+  | charArrayIn                          -- `char **names +intent(in)`
   deriving Repr, DecidableEq
+
+/-- the eight statements that describe a heap `std::vector` in the context struct -/
+def ctxOfVector : List Op :=
+  [.ctxCxxVar 5 6, .ctxIdtor 5, .ctxBaseVec 5 6 6, .ctxType 5, .ctxElemLen 5, .ctxSizeVec 5 6, .ctxRank1 5, .ctxShape0 5 5]
+
+/-- the seven statements that describe memory returned by the library in the context struct -/
+def ctxOfPointer : List Op :=
+  [.ctxCxxPtr 5, .ctxIdtor 5, .ctxBasePtr 5 6, .ctxType 5, .ctxElemLen 5, .ctxRankShape 5, .ctxSizeExpr 5]
 
 /-- documented Fortran-side block -/
 def Kind.fspec : Kind → FSpec
   | .boolIn => ⟨true, [.coerceIn 1 0], []⟩
   | .boolOut => ⟨true, [], [.coerceOut 0 1]⟩
   | .boolInout => ⟨true, [.coerceIn 1 0], [.coerceOut 0 1]⟩
+  | .nativeOutAlloc => ⟨false, [.allocShape 0], []⟩
+  | .vectorOut | .vectorInout | .vectorResult => ⟨false, [], [.copyArrayF 5 0 0]⟩
+  | .vectorOutAlloc | .vectorResultAlloc => ⟨false, [], [.allocCtxSize 0 5, .copyArrayF 5 0 0]⟩
+  | .vectorInoutAlloc => ⟨false, [], [.deallocIf 0 0, .allocCtxSize 0 5, .copyArrayF 5 0 0]⟩
+  | .ptrPtrOut => ⟨false, [], [.cfPointerCtx 5 0]⟩
+  | .resultPointer => ⟨false, [], [.cfPointerRes 7 8]⟩
+  | .resultAlloc => ⟨false, [], [.allocShape 0, .copyArrayF 5 0 0]⟩
   | _ => ⟨false, [], []⟩
 
 /-- documented C-side block for the bufferify (`cfi = false`) and the CFI (`cfi = true`) function -/
@@ -46,6 +66,13 @@ def Kind.cspec : Kind → Bool → CSpec
       [.cfiBase 1 10, .ifEmpty 6, .strCopyNull 1 9, .else_, .strCopyStd 1 9 6 6, .endIf]⟩
   | .charScalarResult, false => ⟨[1, 3], 0, false, [], [.memsetBlank 1 2, .setFirst 1 6]⟩
   | .charScalarResult, true => ⟨[2], 0, true, [], [.cfiBase 1 10, .memsetBlank 1 9, .setFirst 1 6]⟩
+  | .vectorIn, false => ⟨[1, 5], 1, false, [.mkVector 6 1 1 4], []⟩
+  | .vectorOut, false | .vectorOutAlloc, false | .vectorResult, false | .vectorResultAlloc, false =>
+      ⟨[6], 2, false, [.newVector 6], ctxOfVector⟩
+  | .vectorInout, false | .vectorInoutAlloc, false => ⟨[1, 5, 6], 2, false, [.newVectorFrom 6 1 1 4], ctxOfVector⟩
+  | .ptrPtrOut, false => ⟨[6], 3, false, [.declPtr 6], ctxOfPointer⟩
+  | .resultPointer, false | .resultAlloc, false => ⟨[6], 0, false, [], ctxOfPointer⟩
+  | .charArrayIn, false => ⟨[2, 5, 3], 2, false, [.strArrayAlloc 6 1 4 2], [.strArrayFree 6 4]⟩
   | _, _ => ⟨[], 0, false, [], []⟩
 
 
@@ -73,6 +100,19 @@ def Kind.cpaths : Kind → Bool → List (List Nat)
   | .boolIn, _ => [[1, 11, 30, 40], [1, 11, 30, 40, 50]]
   | .boolOut, _ => [[1, 11, 31, 41], [1, 11, 31, 41, 50], [1, 11, 32, 41], [1, 11, 32, 41, 50]]
   | .boolInout, _ => [[1, 11, 31, 42], [1, 11, 31, 42, 50], [1, 11, 32, 42], [1, 11, 32, 42, 50]]
+  -- kinds that exist only through the bufferify function: there is no `_cfi` entry for them
+  | .nativeOutAlloc, false => [[1, 10, 31, 41], [1, 10, 31, 41, 50]]
+  | .vectorIn, false => [[1, 14, 32, 40, 50, 10], [1, 14, 30, 40, 50, 10]]
+  | .vectorOut, false | .vectorOutAlloc, false => [[1, 14, 32, 41, 50, 10]]
+  | .vectorInout, false | .vectorInoutAlloc, false => [[1, 14, 32, 42, 50, 10]]
+  | .vectorResult, false | .vectorResultAlloc, false => [[1, 14, 30, 43, 50, 60]]
+  | .ptrPtrOut, false => [[1, 10, 33, 41, 50], [1, 10, 34, 41, 50]]
+  | .resultPointer, false => [[1, 10, 31, 43, 50]]
+  | .resultAlloc, false => [[1, 10, 31, 43, 50]]
+  | .charArrayIn, false => [[1, 12, 33, 40, 50]]
+  | .nativeOutAlloc, true | .vectorIn, true | .vectorOut, true | .vectorOutAlloc, true | .vectorInout, true
+  | .vectorInoutAlloc, true | .vectorResult, true | .vectorResultAlloc, true | .ptrPtrOut, true
+  | .resultPointer, true | .resultAlloc, true | .charArrayIn, true => []
   | .native, _ => [[1, 10, 30, 40], [1, 10, 30, 40, 50], [1, 10, 31, 40], [1, 10, 31, 41], [1, 10, 31, 42],
                    [1, 10, 31, 40, 50], [1, 10, 31, 41, 50], [1, 10, 31, 42, 50],
                    [1, 10, 32, 40], [1, 10, 32, 41], [1, 10, 32, 42], [1, 10, 32, 40, 50], [1, 10, 32, 41, 50], [1, 10, 32, 42, 50]]
@@ -92,12 +132,26 @@ def Kind.fpaths : Kind → List (List Nat)
   | .stringResult => [[2, 13, 30, 43, 50, 73], [2, 13, 31, 43, 50, 73], [2, 13, 32, 43, 50, 73],
                       [2, 13, 30, 43, 51, 73], [2, 13, 31, 43, 51, 73], [2, 13, 32, 43, 51, 73]]
   | .charScalarResult => [[2, 12, 30, 43, 50], [2, 12, 30, 43, 51]]
+  | .nativeOutAlloc => [[2, 10, 31, 41, 60], [2, 10, 31, 41, 50, 60]]
+  | .vectorIn => [[2, 14, 32, 40, 50, 10], [2, 14, 30, 40, 50, 10]]
+  | .vectorOut => [[2, 14, 32, 41, 50, 10]]
+  | .vectorOutAlloc => [[2, 14, 32, 41, 50, 60, 10]]
+  | .vectorInout => [[2, 14, 32, 42, 50, 10]]
+  | .vectorInoutAlloc => [[2, 14, 32, 42, 50, 60, 10]]
+  | .vectorResult => [[2, 14, 30, 43, 50]]
+  | .vectorResultAlloc => [[2, 14, 30, 43, 50, 60]]
+  | .ptrPtrOut => [[2, 10, 33, 41, 50], [2, 10, 34, 41, 50]]
+  | .resultPointer => [[2, 10, 31, 43, 50, 61]]
+  | .resultAlloc => [[2, 10, 31, 43, 50, 60]]
+  | .charArrayIn => [[2, 12, 33, 40, 50]]
   | .native => [[2, 10, 30, 40], [2, 10, 31, 40], [2, 10, 31, 41], [2, 10, 31, 42], [2, 10, 32, 40], [2, 10, 32, 41],
                 [2, 10, 32, 42], [2, 10, 30, 40, 50], [2, 10, 31, 40, 50], [2, 10, 31, 41, 50], [2, 10, 31, 42, 50]]
 
 def allKinds : List Kind :=
   [.boolIn, .boolOut, .boolInout, .charIn, .charOut, .charInout, .stringIn, .stringOut, .stringInout,
-   .charResult, .stringResult, .charScalarResult, .native]
+   .charResult, .stringResult, .charScalarResult, .native,
+   .nativeOutAlloc, .vectorIn, .vectorOut, .vectorOutAlloc, .vectorInout, .vectorInoutAlloc, .vectorResult,
+   .vectorResultAlloc, .ptrPtrOut, .resultPointer, .resultAlloc, .charArrayIn]
 
 /-- one kind is an instance of its documented shape in the table of language `cxx` -/
 def kindOK (cxx : Bool) (k : Kind) : Bool :=
@@ -128,7 +182,7 @@ theorem lenTrim_full (t : Buf) : lenTrim t t.length = .ok (rtrim t).length := by
 
 /-- unfolding set for the interpreter on concrete op lists -/
 macro "run_simp" "[" ls:Lean.Parser.Tactic.simpLemma,* "]" : tactic =>
-  `(tactic| simp [runArg, Kind.fspec, Kind.cspec, run, step, execOp, fInit, boundary, bindAll, bindArg, St.get,
+  `(tactic| simp [runArg, runArgWith, Kind.fspec, Kind.cspec, run, step, execOp, fInit, boundary, bindAll, bindArg, St.get,
       St.set, St.resolve, assocGet, assocSet, CSpec.storage, CSpec.callVar, Res.bind, St.buf, St.nat, St.int,
       liftBuf, lenTrim_full, $ls,*])
 
@@ -322,6 +376,161 @@ theorem char_scalar_result_buf (v : Buf) (c : Nat) (hL : 0 < v.length) (cfi : Bo
   have hc : ¬ ((c : Int) < 0) := by omega
   cases cfi <;> run_simp [hm, hw, hc]
 
+/-! ## 2b. arrays, std::vector, context results, `char **` (for all sizes) -/
+
+/-- native array, `intent(in)` / `intent(out)` / `intent(inout)` with `rank` / `dimension`, any
+    extent including zero: the library works on the caller's elements (it receives exactly them,
+    extent = length) and the caller holds the elements the library left -/
+theorem native_array_pass_through (a : List Int) (f : List Int → List Int) :
+    runArg Kind.native.fspec (Kind.native.cspec false) true (.arr a)
+        (.arg fun v => match v with | .arr x => .arr (f x) | v => v)
+      = .ok ⟨some (.arr a), .arr (f a), 0⟩ := by
+  run_simp []
+
+example : runArg Kind.native.fspec (Kind.native.cspec false) true (.arr [])
+    (.arg fun v => match v with | .arr x => .arr (x.map (· * 2)) | v => v) = .ok ⟨some (.arr []), .arr [], 0⟩ := by decide
+
+@[simp] theorem toNat_map_cast (sh : List Nat) : sh.map (Int.toNat ∘ Int.ofNat) = sh := by
+  induction sh with
+  | nil => rfl
+  | cons x xs ih => simp [ih]
+
+/-- `T *a +intent(out)+deref(allocatable)+dimension(sh)`: the wrapper allocates `prod sh` elements,
+    the library fills that storage, the caller holds what the library wrote -/
+theorem native_out_allocatable (sh : List Nat) (a0 l : List Int) :
+    runArgWith [(14, .arr (sh.map Int.ofNat))] Kind.nativeOutAlloc.fspec (Kind.nativeOutAlloc.cspec false) true
+        (.arr a0) (.arg fun _ => .arr l)
+      = .ok ⟨some (.arr (List.replicate (prod sh) 0)), .arr l, 0⟩ := by
+  run_simp [St.shape, List.foldl]
+
+/-- ShroudCopyArray on a context that describes the vector `l` -/
+theorem copyElems_vector (x : Ctx) (l d : List Int) :
+    copyElems { x with base := if l.isEmpty then none else some l, size := l.length } d
+      = .ok (l.take (min d.length l.length) ++ d.drop (min d.length l.length)) := by
+  unfold copyElems
+  by_cases hlt : d.length < l.length
+  · have hm : min d.length l.length = d.length := Nat.min_eq_left (Nat.le_of_lt hlt)
+    simp only [hlt, if_true, hm]
+    by_cases hd : d.length = 0
+    · simp [hd, List.length_eq_zero_iff.mp hd]
+    · have hl : l.isEmpty = false := by
+        cases l with
+        | nil => simp at hlt
+        | cons _ _ => rfl
+      simp [hd, hl, Nat.le_of_lt hlt]
+  · have hm : min d.length l.length = l.length := Nat.min_eq_right (Nat.le_of_not_lt hlt)
+    simp only [hlt, if_false, hm]
+    cases l with
+    | nil => simp
+    | cons y ys => simp
+
+/-- `const std::vector<T> &` input: the vector holds exactly the caller's elements -/
+theorem vector_in_buf (a : List Int) :
+    runArg Kind.vectorIn.fspec (Kind.vectorIn.cspec false) true (.arr a) (.arg id)
+      = .ok ⟨some (.vec a), .arr a, 0⟩ := by
+  run_simp []
+
+/-- the context struct after the C wrapper described the vector `l` -/
+def ctxVec (l : List Int) : Ctx :=
+  { owner := some l, ownerPtr := false, idtor := true, base := if l.isEmpty then none else some l, addr := 0,
+    typ := true, elemLen := true, size := l.length, rank := 1, shape := [l.length] }
+
+/-- `std::vector<T> &` intent(out) into a caller array of any extent (shorter, equal, longer, zero):
+    the first `min(size(a), l.size())` elements are the vector's, the rest of the caller's array is
+    unchanged, and the heap vector is deleted -/
+theorem vector_out_buf (d l : List Int) :
+    runArg Kind.vectorOut.fspec (Kind.vectorOut.cspec false) false (.arr d) (.arg fun _ => .vec l)
+      = .ok ⟨some (.vec []), .arr (l.take (min d.length l.length) ++ d.drop (min d.length l.length)), 0⟩ := by
+  have h := copyElems_vector (ctxVec l) l d
+  simp only [ctxVec, List.isEmpty_iff] at h
+  run_simp [ctxOfVector, St.ctx, St.vec, Ctx.empty, h]
+
+/-- `+deref(allocatable)`: the caller's array is allocated with exactly the vector's size and holds its elements -/
+theorem vector_out_allocatable (d l : List Int) :
+    runArg Kind.vectorOutAlloc.fspec (Kind.vectorOutAlloc.cspec false) false (.arr d) (.arg fun _ => .vec l)
+      = .ok ⟨some (.vec []), .arr l, 0⟩ := by
+  have h := copyElems_vector (ctxVec l) l (List.replicate l.length 0)
+  have hd : (List.replicate l.length (0 : Int)).drop l.length = [] := List.drop_eq_nil_of_le (by simp)
+  simp only [ctxVec, List.length_replicate, Nat.min_self, List.take_length, hd, List.append_nil, List.isEmpty_iff] at h
+  run_simp [ctxOfVector, St.ctx, St.vec, Ctx.empty, h]
+
+/-- `std::vector<T> &` intent(inout): the library receives the caller's elements as a vector and the
+    caller's array gets the first `min` elements of what the library left -/
+theorem vector_inout_buf (a : List Int) (f : List Int → List Int) :
+    runArg Kind.vectorInout.fspec (Kind.vectorInout.cspec false) true (.arr a)
+        (.arg fun v => match v with | .vec x => .vec (f x) | v => v)
+      = .ok ⟨some (.vec a), .arr ((f a).take (min a.length (f a).length) ++ a.drop (min a.length (f a).length)), 0⟩ := by
+  have h := copyElems_vector (ctxVec (f a)) (f a) a
+  simp only [ctxVec, List.isEmpty_iff] at h
+  run_simp [ctxOfVector, St.ctx, St.vec, Ctx.empty, h]
+
+/-- `+deref(allocatable)` inout: reallocated to exactly the vector's size -/
+theorem vector_inout_allocatable (a : List Int) (f : List Int → List Int) :
+    runArg Kind.vectorInoutAlloc.fspec (Kind.vectorInoutAlloc.cspec false) true (.arr a)
+        (.arg fun v => match v with | .vec x => .vec (f x) | v => v)
+      = .ok ⟨some (.vec a), .arr (f a), 0⟩ := by
+  have h := copyElems_vector (ctxVec (f a)) (f a) (List.replicate (f a).length 0)
+  have hd : (List.replicate (f a).length (0 : Int)).drop (f a).length = [] := List.drop_eq_nil_of_le (by simp)
+  simp only [ctxVec, List.length_replicate, Nat.min_self, List.take_length, hd, List.append_nil, List.isEmpty_iff] at h
+  run_simp [ctxOfVector, St.ctx, St.vec, Ctx.empty, h]
+
+/-- `std::vector<T>` function result into a result array of given extent -/
+theorem vector_result_buf (d l : List Int) :
+    runArg Kind.vectorResult.fspec (Kind.vectorResult.cspec false) false (.arr d) (.result (.vec l))
+      = .ok ⟨none, .arr (l.take (min d.length l.length) ++ d.drop (min d.length l.length)), 0⟩ := by
+  have h := copyElems_vector (ctxVec l) l d
+  simp only [ctxVec, List.isEmpty_iff] at h
+  run_simp [ctxOfVector, St.ctx, St.vec, Ctx.empty, h]
+
+/-- allocatable `std::vector<T>` result: exactly the vector's size and elements -/
+theorem vector_result_allocatable (d l : List Int) :
+    runArg Kind.vectorResultAlloc.fspec (Kind.vectorResultAlloc.cspec false) false (.arr d) (.result (.vec l))
+      = .ok ⟨none, .arr l, 0⟩ := by
+  have h := copyElems_vector (ctxVec l) l (List.replicate l.length 0)
+  have hd : (List.replicate l.length (0 : Int)).drop l.length = [] := List.drop_eq_nil_of_le (by simp)
+  simp only [ctxVec, List.length_replicate, Nat.min_self, List.take_length, hd, List.append_nil, List.isEmpty_iff] at h
+  run_simp [ctxOfVector, St.ctx, St.vec, Ctx.empty, h]
+
+/-- `T **a +intent(out)+dimension(sh)`: the Fortran pointer designates the library's address with the
+    declared extents (the library memory must hold at least `prod sh` elements) -/
+theorem ptrptr_out (sh : List Nat) (addr : Nat) (elems : List Int) (h : prod sh ≤ elems.length) (a0 : Val) :
+    runArgWith [(14, .arr (sh.map Int.ofNat))] Kind.ptrPtrOut.fspec (Kind.ptrPtrOut.cspec false) false a0
+        (.arg fun _ => .ref addr elems)
+      = .ok ⟨some .null, .ref addr (elems.take (prod sh)), 0⟩ := by
+  run_simp [ctxOfPointer, St.ctx, St.shape, Ctx.empty, List.foldl, h]
+
+/-- `T *f() +deref(pointer)+dimension(sh)`: the Fortran pointer result designates the returned address
+    with the declared extents -/
+theorem result_pointer (sh : List Nat) (addr : Nat) (elems : List Int) (h : prod sh ≤ elems.length) (r0 : Val) :
+    runArgWith [(14, .arr (sh.map Int.ofNat))] Kind.resultPointer.fspec (Kind.resultPointer.cspec false) false r0
+        (.result (.ref addr elems))
+      = .ok ⟨none, .ref addr (elems.take (prod sh)), 0⟩ := by
+  run_simp [ctxOfPointer, St.ctx, St.shape, Ctx.empty, List.foldl, h]
+
+/-- `T *f() +deref(allocatable)+dimension(sh)`: a fresh array of the declared extents holding the
+    first `prod sh` elements found at the returned address -/
+theorem result_allocatable (sh : List Nat) (addr : Nat) (elems : List Int) (h : prod sh ≤ elems.length) (r0 : Val) :
+    runArgWith [(14, .arr (sh.map Int.ofNat))] Kind.resultAlloc.fspec (Kind.resultAlloc.cspec false) false r0
+        (.result (.ref addr elems))
+      = .ok ⟨none, .arr (elems.take (prod sh)), 0⟩ := by
+  have hd : (List.replicate (prod sh) (0 : Int)).drop (prod sh) = [] := List.drop_eq_nil_of_le (by simp)
+  by_cases h0 : prod sh = 0
+  · run_simp [ctxOfPointer, St.ctx, St.shape, Ctx.empty, List.foldl, copyElems, h0]
+  · run_simp [ctxOfPointer, St.ctx, St.shape, Ctx.empty, List.foldl, copyElems, h0, h, hd]
+
+/-- `char **names +intent(in)` from `character(len=L) :: names(n)`: element `i` is the text of slice
+    `i` without trailing blanks, NUL terminated, in its own block; all `n + 1` blocks are released -/
+theorem char_array_in (slices : List Buf) (len : Nat) (hl : ∀ s ∈ slices, s.length = len) :
+    runArg Kind.charArrayIn.fspec (Kind.charArrayIn.cspec false) false (.carr slices.length len slices.flatten) (.arg id)
+      = .ok ⟨some (.ptrs (slices.map fun s => rtrim s ++ [NUL])), .carr slices.length len slices.flatten, 0⟩ := by
+  have ha := strArrayAlloc_spec slices len [] hl
+  rw [List.append_nil] at ha
+  have hf := strArrayFree_after_alloc _ _ _ _ ha
+  run_simp [ha, hf]
+
+example : ∀ s ∈ [[97, 32], [32, 98]], s.length = 2 := by decide
+example : prod [2, 3] ≤ [1, 2, 3, 4, 5, 6, 7].length := by decide
+
 /-! ## 3. configuration independence (`_partial`: the kinds above; debug is C16) -/
 
 /-- what a `char *` parameter shows the library: the bytes before the first NUL -/
@@ -392,6 +601,31 @@ theorem cfi_independent_partial (t v str post : Buf) (s : List Nat) (f : List Na
   · rw [char_scalar_result_buf v c hL false, char_scalar_result_buf v c hL true]
 
 example : ∀ c ∈ [97, 32, 98, 32], c ≠ NUL := by decide
+
+/-- kinds that reach the library only through the bufferify function -/
+def contextKinds : List Kind :=
+  [.vectorIn, .vectorOut, .vectorOutAlloc, .vectorInout, .vectorInoutAlloc, .vectorResult, .vectorResultAlloc,
+   .ptrPtrOut, .resultPointer, .resultAlloc, .charArrayIn]
+
+/-- **no CFI counterpart**: for std::vector, `T **` out, context results and `char **` the table has
+    no `_cfi` entry - with the suffix `cfi` (or no suffix, which is what arguments of these kinds get
+    in a function cloned by arg_to_CFI) the lookup ends in a block that is not a `_cfi` block and
+    declares no context / size argument (the default block; for `char **` the plain `type(C_PTR)` form).  Configuration independence cannot be stated for them; this is the
+    territory of the open finding `c01:F_CFI-generation-fails:context-or-vector-argument`. -/
+theorem context_kinds_have_no_cfi_entry :
+    ([true, false].all fun cxx => contextKinds.all fun k => (k.cpaths false).all fun p =>
+      ([p.map fun x => if x = 50 then 51 else x, p.filter (· ≠ 50)].all fun q =>
+        !(lookup (rowsOf cxx) q).path.contains 51 &&
+        (lookup (rowsOf cxx) q).bufArgs.all (fun b => b ≠ 6 && b ≠ 5))) = true := by
+  decide +kernel
+
+/-- pointer and allocatable results take the C function's return value as `F_pointer`
+    (`call` clause `{F_pointer} = {F_C_call}({F_arg_c_call})`), in both language tables -/
+theorem result_call_clause :
+    ([true, false].all fun cxx =>
+      (lookup (rowsOf cxx) [2, 10, 31, 43, 50, 61]).clause 3 == [(48, [7])] &&
+      (lookup (rowsOf cxx) [2, 10, 31, 43, 50, 60]).clause 3 == [(48, [7])]) = true := by
+  decide +kernel
 
 /-! ## 4. assembly: `wrap_function_impl` for all parameter lists -/
 
